@@ -636,3 +636,55 @@ pub fn oracle_c13(case: &Case, lines: &[String], script: &[Resp]) -> Result<(), 
     }
     Ok(())
 }
+
+/// C17 — judged on the implementation's own draw log: range, one draw per requested bound, and replay
+/// (equal bound histories since the last (re)seed give equal values)
+pub fn oracle_c17(log: &[digital_test_runner::verif_hooks::RngEvent]) -> Result<(), String> {
+    use digital_test_runner::verif_hooks::RngEvent;
+    let mut hist: Vec<i64> = vec![];
+    let mut table: HashMap<Vec<i64>, i64> = HashMap::new();
+    let mut pending: Option<i64> = None;
+    for ev in log {
+        match ev {
+            RngEvent::NewContext => {
+                hist.clear();
+                table.clear();
+                pending = None;
+            }
+            RngEvent::Reset => {
+                if pending.is_some() {
+                    return Err("a bound was requested but no value drawn before resetRandom".into());
+                }
+                hist.clear();
+            }
+            RngEvent::Bound(b) => {
+                if pending.is_some() {
+                    return Err("two bounds requested with no draw in between".into());
+                }
+                pending = Some(*b);
+            }
+            RngEvent::Draw(v) => {
+                let Some(b) = pending.take() else {
+                    return Err(format!("a value ({v}) was drawn without random(n) asking for it (more than one draw per evaluation)"));
+                };
+                if b >= 2 && !(0 <= *v && *v < b) {
+                    return Err(format!("random({b}) delivered {v}, outside 0 <= r < {b}"));
+                }
+                hist.push(b);
+                if let Some(old) = table.get(&hist) {
+                    if old != v {
+                        return Err(format!(
+                            "after resetRandom the draw for the bound sequence {hist:?} is {v}, but the same sequence gave {old} earlier in the run"
+                        ));
+                    }
+                } else {
+                    table.insert(hist.clone(), *v);
+                }
+            }
+        }
+    }
+    if pending.is_some() {
+        return Err("a bound was requested but no value drawn".into());
+    }
+    Ok(())
+}
